@@ -314,10 +314,10 @@ class MappingSchema(AbstractMappingSchema, Schema):
         self.visible: dict[str, object] = {} if visible is None else visible
         self.normalize: bool = normalize
         self._dialect: Dialect = Dialect.get_or_raise(dialect)
-        self._type_mapping_cache: dict[tuple[str, Dialect], exp.DataType] = {}
-        self._normalized_table_cache: dict[tuple[exp.Table, DialectType, bool], exp.Table] = {}
+        self._type_mapping_cache: dict[tuple[str, t.Any], exp.DataType] = {}
+        self._normalized_table_cache: dict[tuple[exp.Table, t.Any, bool], exp.Table] = {}
         self._normalized_name_cache: dict[
-            tuple[str, bool | None, DialectType, bool, bool], str
+            tuple[str, bool | None, t.Any, bool, bool], str
         ] = {}
         self._find_cache: dict[tuple[exp.Table, bool], dict[str, object] | None] = {}
         self._depth: int = 0
@@ -614,8 +614,10 @@ class MappingSchema(AbstractMappingSchema, Schema):
 
         # Cache normalized tables by object id for exp.Table inputs
         # This is effective when the same Table object is looked up multiple times
+        dialect_key = _dialect_cache_key(dialect)
+
         if isinstance(table, exp.Table) and (
-            cached := self._normalized_table_cache.get((table, dialect, normalize))
+            cached := self._normalized_table_cache.get((table, dialect_key, normalize))
         ):
             return cached
 
@@ -628,7 +630,7 @@ class MappingSchema(AbstractMappingSchema, Schema):
                         normalize_name(part, dialect=dialect, is_table=True, normalize=normalize)
                     )
 
-        self._normalized_table_cache[(normalized_table, dialect, normalize)] = normalized_table
+        self._normalized_table_cache[(normalized_table, dialect_key, normalize)] = normalized_table
         return normalized_table
 
     def _normalize_name(
@@ -643,7 +645,7 @@ class MappingSchema(AbstractMappingSchema, Schema):
         dialect = dialect or self.dialect
         name_str = name if isinstance(name, str) else name.name
         quoted = None if isinstance(name, str) else bool(name.args.get("quoted"))
-        cache_key = (name_str, quoted, dialect, is_table, normalize)
+        cache_key = (name_str, quoted, _dialect_cache_key(dialect), is_table, normalize)
 
         if cached := self._normalized_name_cache.get(cache_key):
             return cached
@@ -676,7 +678,7 @@ class MappingSchema(AbstractMappingSchema, Schema):
             The resulting expression type.
         """
         dialect = Dialect.get_or_raise(dialect) if dialect else self.dialect
-        cache_key = (schema_type, dialect)
+        cache_key = (schema_type, _dialect_cache_key(dialect))
 
         if cache_key not in self._type_mapping_cache:
             udt = dialect.SUPPORTS_USER_DEFINED_TYPES
@@ -690,6 +692,19 @@ class MappingSchema(AbstractMappingSchema, Schema):
                 raise SchemaError(f"Failed to build type '{schema_type}'{in_dialect}.")
 
         return self._type_mapping_cache[cache_key]
+
+
+def _dialect_cache_key(dialect: DialectType) -> t.Any:
+    # Dialect instances of the same class compare (and hash) equal whatever their settings are,
+    # so they can't be used as cache keys themselves when the cached value depends on the settings
+    if isinstance(dialect, Dialect):
+        return (
+            type(dialect),
+            dialect.version,
+            dialect.normalization_strategy,
+            repr(sorted(dialect.settings.items())),
+        )
+    return dialect
 
 
 def normalize_name(
